@@ -9,7 +9,7 @@ case the decoder path with the same decision-bit string must carry the same even
 Nothing is executed; conditions are folded over small finite domains."""
 from lzlint.framework import rule
 from lzlint.core import (Prov, Callee, callee_of, strip_generics, last_seg, expr_walk, expr_str, op_local, op_place,
-                         const_val, switch_edges, norm_cmp)
+                         const_val, switch_edges, norm_cmp, field_path, op_const)
 from lzlint.byteeval import fold, Unknown
 from rules.units import methods_of
 
@@ -765,3 +765,155 @@ def codec_mirror(ctx):
                           'length differ: %s: %s / %s vs %s: %s / %s' % (hs[0].name, c0, sorted(l0), hs[1].name, c1, sorted(l1)))
     else:
         ctx.info('dist-state-formula', '-', 'helper pair not identified (%d candidates)' % len(hs))
+
+
+# --------------------------------------------------------------------------- RC-NORM-TWIN (C01, C14)
+
+def _u32_eval(e, r):
+    """Evaluate a predicate/expression over the single unknown `self.range` = r with u32 semantics. None if unknown."""
+    M = 0xFFFFFFFF
+    t = e[0]
+    if t == 'const':
+        return int(e[2]) & M if isinstance(e[2], (int, bool)) else None
+    if t == 'field' and e[2] == 'range':
+        return r
+    if t == 'cast':
+        return _u32_eval(e[2], r)
+    if t == 'field' and e[1][0] == 'bin' and e[2] == '0':
+        return _u32_eval(e[1], r)
+    if t == 'un' and e[1] == 'Not':
+        v = _u32_eval(e[2], r)
+        if v is None:
+            return None
+        inner = e[2]
+        is_bool = inner[0] == 'bin' and inner[1] in ('Eq', 'Ne', 'Lt', 'Le', 'Gt', 'Ge')
+        return (0 if v else 1) if is_bool else (~v) & M
+    if t == 'bin':
+        a, b = _u32_eval(e[2], r), _u32_eval(e[3], r)
+        if a is None or b is None:
+            return None
+        op = e[1].replace('WithOverflow', '').replace('Unchecked', '')
+        table = {'Eq': lambda: int(a == b), 'Ne': lambda: int(a != b), 'Lt': lambda: int(a < b), 'Le': lambda: int(a <= b),
+                 'Gt': lambda: int(a > b), 'Ge': lambda: int(a >= b), 'BitAnd': lambda: a & b, 'BitOr': lambda: a | b,
+                 'BitXor': lambda: a ^ b, 'Shl': lambda: (a << b) & M if b < 32 else None, 'Shr': lambda: a >> b if b < 32 else None,
+                 'Add': lambda: (a + b) & M, 'Sub': lambda: (a - b) & M}
+        return table[op]() if op in table else None
+    return None
+
+
+def _norm_sites(F, adt):
+    """[(fn, switch block, cond expr, polarity that leads to `range <<= k`, k)] in the methods of `adt`."""
+    out = []
+    for f in F.fns:
+        if not (f.self_adt and last_seg(f.self_adt) == adt and f.kind != 'closure'):
+            continue
+        prov = Prov(f)
+        shl = {}
+        for bi, b in enumerate(f.blocks):
+            if b['cleanup'] or bi not in f.reachable:
+                continue
+            for si, s in enumerate(b['stmts']):
+                if s['k'] == 'assign' and s['lhs']['l'] == 1 and tuple(field_path(s['lhs']) or ()) == ('range',) and s['rv']['r'] == 'bin' and s['rv']['op'].startswith('Shl'):
+                    k = op_const(s['rv']['b'])
+                    shl[bi] = k.get('v') if k else None
+        from lzlint.core import guards_of
+        for B in sorted(shl):
+            gs = [(sb, pol, cond) for sb, pol, cond in guards_of(f, B, prov)
+                  if any(x[0] == 'field' and x[2] == 'range' for x in expr_walk(cond))]
+            if gs:
+                sb, pol, cond = max(gs, key=lambda g: g[0] if f.dominates(g[0], B) else -1)
+                # innermost: the guard dominated by all the others
+                for g in gs:
+                    if all(f.dominates(h[0], g[0]) for h in gs):
+                        sb, pol, cond = g
+                out.append((f, sb, cond, pol, shl[B]))
+    return out
+
+
+@rule('RC-NORM-TWIN', ['C01', 'C14'], floor=4)
+def rc_norm_twin(ctx):
+    """Range encoder and range decoder renormalise (`range <<= 8`, one byte out / in) at the same moment, or they are out of
+    step for the rest of the stream. The condition is written three ways in this crate: `range & TOP_MASK == 0` (encoder,
+    two sites), `range < 0x0100_0000` (decoder), and `cmp range, top_value; jae skip` (x86-64 assembly of the direct-bit
+    decoder). The predicates are read off the code (the branch whose one edge leads to the shift of `range`) and compared
+    as functions of the one variable they read, on the critical points of both: every constant that occurs in either
+    predicate, its neighbours, and all powers of two with their neighbours (a predicate built from comparisons and masks
+    of one u32 against constants can only change its value there). The shift amounts have to agree too. An encoder that
+    tests `range < 0x00FF_FFFF` differs at exactly one value (reached about once per 700 4-KiB inputs)."""
+    import re
+    F = ctx.facts
+    enc = _norm_sites(F, 'RangeEncoder')
+    dec = _norm_sites(F, 'RangeDecoder')
+    if not enc or not dec:
+        return ctx.anchor_missing('normalisation branches of RangeEncoder / RangeDecoder (a test of `range` guarding `range <<= k`)')
+    pts = {0, 1, 0xFFFFFFFF}
+    for k in range(33):
+        for d in (-1, 0, 1):
+            pts.add(((1 << k) + d) & 0xFFFFFFFF)
+    for f, sb, cond, pol, k in enc + dec:
+        for x in expr_walk(cond):
+            if x[0] == 'const' and isinstance(x[2], int):
+                for v in (x[2], (~x[2]) & 0xFFFFFFFF):
+                    for d in (-1, 0, 1):
+                        pts.add((v + d) & 0xFFFFFFFF)
+    fd, sbd, condd, pold, kd = dec[0]
+
+    def val(cond, pol, r):
+        v = _u32_eval(cond, r)
+        return None if v is None else bool(v) == pol
+
+    for f, sb, cond, pol, k in enc + dec[1:]:
+        key = '%s:normalises-like-%s' % (f.key, fd.key)
+        diff = [r for r in sorted(pts) if val(cond, pol, r) != val(condd, pold, r) or val(cond, pol, r) is None]
+        if diff:
+            ctx.violation(key, f.loc(sb), 'this side renormalises for range = 0x%08X: %s, %s does: %s (condition %s vs %s): encoder and decoder shift at '
+                          'different moments and every later symbol is decoded from the wrong code value' % (
+                              diff[0], val(cond, pol, diff[0]), fd.key, val(condd, pold, diff[0]), expr_str(cond)[:60], expr_str(condd)[:60]))
+        elif k != kd:
+            ctx.violation(key, f.loc(sb), 'shift by %s where %s shifts by %s' % (k, fd.key, kd))
+        else:
+            ctx.ok(key, f.loc(sb), 'same predicate on %d critical points, shift %s' % (len(pts), k))
+    # assembly twin(s): cmp <range>, <const>; j<cc> over the shifts
+    for f in F.fns:
+        for bi, b in enumerate(f.blocks):
+            t = b['term']
+            if t['k'] != 'asm':
+                continue
+            rng = [i for i, o in enumerate(t['operands']) if o.get('place') and tuple(field_path(o['place']) or ()) == ('range',)]
+            if not rng:
+                continue
+            key = '%s:asm-normalises-like-%s' % (f.key, fd.key)
+            lines = [l.strip() for l in t['template'].replace('\\n', '\n').split('\n') if l.strip() and not l.strip().startswith('//')]
+            consts = {i: o for i, o in enumerate(t['operands']) if o.get('dir') == 'const' or 'const' in str(o.get('kind', ''))}
+            found = None
+            for i, l in enumerate(lines[:-1]):
+                m = re.match(r'cmp\s+\{(\d+)(?::\w+)?\}\s*,\s*\{(\d+)\}', l)
+                if m and int(m.group(1)) in rng:
+                    found = (int(m.group(2)), lines[i + 1].split()[0], lines[i + 1])
+                    break
+            if not found:
+                ctx.violation(key, f.loc(bi), 'cannot find `cmp {range}, {const}` in the assembly template (fail closed)')
+                continue
+            cop = t['operands'][found[0]]
+            cval = cop.get('const', cop.get('value_const', cop.get('v')))
+            if isinstance(cval, dict):
+                cval = cval.get('v')
+            # decoder predicate: normalise iff range < C. The asm jumps OVER the normalisation, so the jump must be taken iff range >= C.
+            crit = [r for r in sorted(pts)]
+            thr = [r for r in crit if val(condd, pold, r)]
+            C = (max(thr) + 1) if thr else None
+            skip_ok = found[1] in ('jae', 'jnb', 'jnc')
+            if cval is None:
+                # the operand is an inline `const` expression (an anonymous constant the extractor does not evaluate): the
+                # comparison constant itself is not decided here, the direction of the jump is
+                m2 = re.search(r'constant#\d+', str(cop.get('dbg', '')))
+                if skip_ok and m2:
+                    ctx.ok(key, f.loc(bi), '`cmp range, <const>; %s` skips the normalisation when range >= const (value of the inline const not decided)' % found[1])
+                else:
+                    ctx.violation(key, f.loc(bi), '`%s` after `cmp range, <const>`: the portable decoder normalises iff range < 0x%X, so the assembly has to '
+                                  'skip the normalisation with jae/jnb (range >= const); as written the two paths differ for range == const' % (found[2], C or 0))
+            elif skip_ok and cval == C:
+                ctx.ok(key, f.loc(bi), '`cmp range, 0x%X; %s` skips the normalisation exactly when range >= 0x%X' % (cval, found[1], C))
+            else:
+                ctx.violation(key, f.loc(bi), '`cmp range, 0x%X; %s` skips the normalisation under a different condition than the portable decoder '
+                              '(normalise iff range < 0x%X): the two paths decode different values for range == 0x%X' % (cval or 0, found[2], C or 0, C or 0))
